@@ -422,7 +422,26 @@ let rec replay (z : sys2) (evs : (int * string) list) (snaps : string list) : st
       if z.z_w.w_alive && String.trim obs <> mine then fail ("final directory differs: model " ^ (if String.length mine > 400 then String.sub mine 0 400 else mine))
       else Some (List.rev (("end " ^ synced_listing zf.z_disk) :: snaps))
     end
-    else (* c open / c opened / c openlock / c flock / recovery system calls / skipped *)
+    else if starts_with e "c open " then begin
+      (* a new instance opens the directory: the previous one must be gone *)
+      let cfg = p_cfg (toks (after e "c open ")) in
+      let zf = worker_finish z 0 in
+      (* the outcome line follows the recovery's own system calls *)
+      let rec outcome l = match l with
+        | (_, e2) :: r when e2 = "c opened" || starts_with e2 "c openerr" || e2 = "c panic" -> (e2, r)
+        | _ :: r -> outcome r
+        | [] -> ("", []) in
+      let (res, rest') = outcome rest in
+      (match open_dir cfg zf.z_disk with
+       | OpenOk y ->
+         if res <> "c opened" then fail ("model opens the directory, implementation: " ^ res)
+         else replay (sys2_of y) rest' snaps
+       | OpenErr (er, _) ->
+         let want = "c openerr " ^ str_kind (err_kind er) in
+         if res <> want then fail ("model: " ^ want ^ ", implementation: " ^ res)
+         else Some (List.rev ("open-refused" :: snaps)))
+    end
+    else (* c openlock / c flock / c dropped / recovery system calls / skipped *)
       replay z rest snaps
 
 and worker_event (z : sys2) (i : int) (e : string) : sys2 * vis =
